@@ -110,13 +110,13 @@ theorem leaves_only_by (cap : Nat) (ops : List Op) (op : Op) (k : Key) :
 (`for key in dict(self.store): await self.get(key)`) leaves exactly the live entries, values and
 deadlines unchanged, in the same relative order — although each of its reads does `move_to_end`.
 This is why a sweep is not a use. -/
-theorem purge_keeps_live_in_order (cap : Nat) (ops : List Op) :
+theorem purge_preserves_order (cap : Nat) (ops : List Op) :
     let s := ((Mem.init cap).run ops).1
     s.purge = { s with store := s.store.filter (fun p => p.2.live s.now) } :=
   Mem.purge_eq _ (cap_bound cap ops ops (List.prefix_refl _)).2
 
 /-- (c) for an arbitrary (not necessarily reachable) store with distinct keys -/
-theorem purge_keeps_live_in_order_any (s : Mem) (h : (keys s.store).Nodup) :
+theorem purge_preserves_order_any (s : Mem) (h : (keys s.store).Nodup) :
     s.purge = { s with store := s.store.filter (fun p => p.2.live s.now) } :=
   Mem.purge_eq s h
 
